@@ -124,7 +124,8 @@ type c18Req struct {
 	start                   int64 // oracle: height whose begin-block started the context
 	svcReq                  string
 	why                     string
-	orphan                  bool // fault injected: the service context was removed while the request was queued
+	orphan                  bool  // fault injected: the service context was removed while the request was queued
+	timeout                 int64 // oracle: the service module's maximum request timeout when the request was made
 }
 
 type c18Machine struct {
@@ -140,13 +141,15 @@ type c18Machine struct {
 	nZeroInterval, nLarge, nMeta, nPlainDone, nFeeRefused, nSameTx                                          int
 	blockTx                                                                                                 []byte // tx bytes of the block's latest request
 	nBoundaryRestart, nBoundaryRestartDue                                                                   int
+	maxTimeout                                                                                              int64 // the service parameter in force (model)
+	nTimeoutChanged, nTimeoutLoweredWhilePending                                                            int
 	nStartFailed, nReimport, nReimportMulti                                                                 int
 }
 
 const c18Requesters = 4 // U0..U3; U4 = unrelated requester on metamorphic branches; U5 = provider
 
 func newC18() pbt.Machine[c18Op] {
-	return &c18Machine{c: c18Env().NewCase(), asked: map[int]bool{}, provider: 5}
+	return &c18Machine{c: c18Env().NewCase(), asked: map[int]bool{}, provider: 5, maxTimeout: c18Timeout}
 }
 
 func (m *c18Machine) addr(i int) sdk.AccAddress { return m.c.E.Users[i].Addr }
@@ -188,6 +191,9 @@ func (m *c18Machine) Next(t *rapid.T) c18Op {
 	if nq := len(m.reqs); nq > 0 && rapid.IntRange(0, 14).Draw(t, "reimport?") == 0 {
 		// restart from the module's own exported genesis: the pending queue is what the genesis carries
 		return c18Op{Kind: "reimport"}
+	}
+	if m.bound && rapid.IntRange(0, 1<<20).Draw(t, "svcparams")%20 == 19 {
+		return c18Op{Kind: "svcparams", Interval: uint64(rapid.SampledFrom([]int{2, 3, 3, 5, 8}).Draw(t, "maxtimeout"))}
 	}
 	k := rapid.IntRange(0, 99).Draw(t, "kind")
 	switch {
@@ -256,6 +262,29 @@ func (m *c18Machine) Apply(op c18Op) error {
 		return m.applyOrphan(op)
 	case "reimport":
 		return m.applyReimport()
+	}
+	if op.Kind == "svcparams" {
+		// the authority changes the service module's maximum request timeout: requests already made keep the value
+		// that was in force when they were made
+		if op.Interval < 1 || op.Interval > 100 {
+			return fmt.Errorf("bad replay op %+v", op)
+		}
+		ps := m.c.E.K.Service.GetParams(m.c.Ctx)
+		ps.MaxRequestTimeout = int64(op.Interval)
+		if r := m.c.Deliver(&servicetypes.MsgUpdateParams{Authority: m.c.E.Gov.String(), Params: ps}); r.Outcome != chain.OK {
+			return pbt.Failf("harness/svcparams", "valid service parameter change refused: %v", r)
+		}
+		if int64(op.Interval) < m.maxTimeout {
+			for _, r := range m.reqs {
+				if r.oracle && r.state == c18Queued && !r.orphan {
+					m.nTimeoutLoweredWhilePending++
+					break
+				}
+			}
+		}
+		m.maxTimeout = int64(op.Interval)
+		m.nTimeoutChanged++
+		return m.check()
 	}
 	return fmt.Errorf("unknown op kind %q", op.Kind)
 }
@@ -330,7 +359,7 @@ func (m *c18Machine) applyRequest(op c18Op) error {
 	}
 	m.asked[op.Who] = true
 	r := &c18Req{id: c18ReqID(h, consumer.String()), consumer: consumer.String(), who: op.Who, h: h, due: h + int64(op.Interval),
-		oracle: op.Oracle, state: c18Queued, tx: strings.ToLower(res.TxHash)}
+		oracle: op.Oracle, state: c18Queued, tx: strings.ToLower(res.TxHash), timeout: m.maxTimeout}
 	if ids := chain.EventAttrs(res.Events, "request_random", "request_id"); len(ids) != 1 || !strings.EqualFold(ids[0], r.id) {
 		return pbt.Failf("C18/request-id", "request id in event %v, documented scheme gives %s", ids, r.id)
 	}
@@ -442,7 +471,7 @@ func (m *c18Machine) applyBlock(op c18Op) error {
 				r.state, r.why = c18Dead, "no provider within the fee cap"
 				m.nSkipped++
 			}
-		case r.state == c18Requested && r.start+c18Timeout == H:
+		case r.state == c18Requested && r.start+r.timeout == H:
 			r.state, r.why = c18Dead, "timed out"
 			m.nTimeout++
 		}
@@ -737,6 +766,8 @@ func (m *c18Machine) Classify() (bool, []string) {
 	add(m.nLarge > 0, "large-interval-stays-queued")
 	add(m.nSameTx > 0, "requests-of-several-consumers-in-one-tx")
 	add(m.nBoundaryRestart > 0, "restart-at-a-block-boundary")
+	add(m.nTimeoutChanged > 0, "service-max-timeout-changed")
+	add(m.nTimeoutLoweredWhilePending > 0, "service-max-timeout-lowered-while-an-oracle-request-is-queued")
 	add(m.nBoundaryRestartDue > 0, "restart-at-a-block-boundary-with-requests-due")
 	add(m.c.Time().Year() > 2262 && m.nPlainDone > 0, "block-time-beyond-2262")
 	add(m.nMeta > 0, "metamorphic-branch")
